@@ -81,6 +81,7 @@ def run_c09(tier, seed):
     nparse = 0
     parse_budget = 2500 if tier == "quick" else 20000
     parse_pick = set(rng.sample(range(len(trees)), min(parse_budget, len(trees))))
+    prev_obj = None
     for ti, o in enumerate(trees):
         tree = o["tree"]
         variants = [("objects", build.mk_fcp(tree))]
@@ -98,6 +99,16 @@ def run_c09(tier, seed):
                 nparse += 1
             except RuntimeError:
                 pass        # the front end's own rejections (unknown type names) are C08's business
+        if prev_obj is not None and ti % 5 == 0:
+            # an object that has already been verified (the previous tree) EDITED IN PLACE into this tree, and a deep copy of it
+            # edited the same way: the verdict is a function of the tree at the time of the call
+            import copy
+            fresh = build.mk_fcp(tree)
+            for how, obj in (("objects-edited-in-place", prev_obj), ("copy-edited", copy.deepcopy(prev_obj))):
+                for attr in ("structs", "enums", "impls", "services", "devices"):
+                    getattr(obj, attr)[:] = getattr(fresh, attr)
+                variants.append((how, obj))
+        prev_obj = variants[0][1]
         for cs in CSETS:
             exp = "Ok" if o[cs] == 1 else "Err"
             for how, fcp in variants:
